@@ -13,6 +13,7 @@ MAP_A = ([0, 1, 4, 31, 32, 33, 63, 64], [0, 3, 30, 31, 32, 62, 63, 95])         
 MAP_C = ([0, 4, 32, 63, 64, 96, 128, 129, 160], [3, 31, 62, 63, 95, 127, 128, 159, 191])                # three words
 MAP_D = ([0, 3, 31, 33, 64, 65, 95, 127, 128], [2, 30, 32, 63, 64, 94, 126, 127, 159])                  # odd group count, straddling
 MAP_E = ([0, 32, 60, 64, 68, 96, 124, 128, 192, 224], [31, 59, 63, 67, 95, 123, 127, 191, 223, 255])    # four words
+MAP_P = ([0, 32, 480, 512, 544, 576], [31, 479, 511, 543, 575, 639])                                      # across the 512-bit preallocation
 
 
 def groups_map(nb):
@@ -29,8 +30,8 @@ def gen_module(name, m, steer):
 
 
 def cfg(maxlen, chain, mode, sim):
-    inv = "TypeOK CallOK EmitSim" if sim else "TypeOK Laws CallOK EmitState"
-    return ("SPECIFICATION Spec\nCONSTANTS\n  Lo <- GLo\n  Hi <- GHi\n  Steer <- GSteer\n  MaxLen = %d\n  Chain = %s\n  Mode = \"%s\"\n"
+    inv = "TypeOK CallOK" if sim else "TypeOK Laws CallOK EmitState"
+    return ("SPECIFICATION Spec\nCONSTANTS\n  Lo <- GLo\n  Hi <- GHi\n  Steer <- GSteer\n  MaxLen = %d\n  Chain = %s\n  Mode = \"%s\"\n  SimPick = 1\n"
             "VIEW View\nINVARIANTS %s\nCHECK_DEADLOCK FALSE\n" % (maxlen, "TRUE" if chain else "FALSE", mode, inv))
 
 
@@ -212,7 +213,7 @@ def run(ctx, replay=None):
     strict = os.environ.get("HWV_C04_STRICT", "0") not in ("", "0")
     tcfg = "SPECIFICATION Spec\nCONSTANT Strict = %s\nPOSTCONDITION Accepted\nCHECK_DEADLOCK FALSE\n" % ("TRUE" if strict else "FALSE")
     # a runaway allocation (e.g. an index near 2^32 parsed from a string) fails instead of eating the machine
-    renv = {"ASAN_OPTIONS": "max_allocation_size_mb=1024"}
+    renv = {"ASAN_OPTIONS": "max_allocation_size_mb=1024:symbolize=0"}
 
     def replay_fn(text):
         p = ctx.path("replay-%d.beh" % random.randrange(1 << 30))
@@ -238,39 +239,51 @@ def run(ctx, replay=None):
     def mc(tag, m, steer, maxlen, chain, mode, simulate=None, workers=vlib.NCPU, timeout=1500):
         out, st = ctx.tlc_mc("MC_BitmapStr_gen", cfg(maxlen, chain, mode, simulate is not None), tag=tag,
                              extra_modules=[("MC_BitmapStr_gen.tla", gen_module("MC_BitmapStr_gen", m, steer))],
-                             simulate=simulate, depth=(maxlen + 1) if simulate else None, timeout=timeout, workers=workers)
+                             simulate=simulate, depth=(maxlen + 2) if simulate else None, timeout=timeout, workers=workers)
         if st["error"] or (simulate is None and st["rc"] != 0):
             raise vlib.Infra("model run %s of MC_BitmapStr failed (model-level, not a violation): %s\n%s" % (tag, st["error"], out[-1500:]))
-        hs = list(vlib.tlc_printed(out, "SIM" if simulate else "STATE"))
-        for h in hs:
-            for o in h:
-                if o["op"] == "sscanf" and len(pool[o["fmt"]]) < 4000:
-                    pool[o["fmt"]].append(o["str"])
-        return hs
+        return list(vlib.tlc_printed(out, "SIM" if simulate else "STATE"))
 
     # (1) exhaustive: every value of the family, every call, every buffer length 0..needed+1
-    full_jobs = [("a", MAP_A, S3)]
+    jobs = [("full", "a", MAP_A, S3)]
     if thorough:
-        full_jobs += [("c", MAP_C, S3), ("d", MAP_D, S0), ("e", MAP_E, S0)] + [("r%d" % i, random_map(rng), S0) for i in range(2)]
-    for tag, m, steer in full_jobs:
-        behs += group_bfs(mc("full_" + tag, m, steer, 3, False, "full"))
-
+        jobs += [("full", "c", MAP_C, S3), ("full", "d", MAP_D, S0), ("full", "e", MAP_E, S0)]
+        jobs += [("full", "p", MAP_P, S3)] + [("full", "r%d" % i, random_map(rng), S0) for i in range(2)]
     # (2) exhaustive round trips over larger families: set -> asprintf -> reparse
-    light_jobs = [("g", groups_map(10), S0), ("c", MAP_C, S3)]
     if thorough:
-        light_jobs = [("g", groups_map(13), S0), ("e", MAP_E, S3), ("d", MAP_D, S3)] + [("r%d" % i, random_map(rng), S3) for i in range(3)]
-    for tag, m, steer in light_jobs:
-        behs += group_bfs(mc("light_" + tag, m, steer, 3, False, "light"))
-
+        jobs += [("light", "g", groups_map(13), S0), ("light", "e", MAP_E, S3), ("light", "d", MAP_D, S3)]
+        jobs += [("light", "r%d" % i, random_map(rng), S3) for i in range(3)]
+    else:
+        jobs += [("light", "g", groups_map(10), S0), ("light", "c", MAP_C, S3), ("light", "p", MAP_P, S3)]
     # (3) simulation: free interleaving of the calls on one register (stale contents, sscanf into a used bitmap)
-    sim_jobs = [("c", MAP_C), ("r", random_map(rng))]
+    jobs += [("sim", "c", MAP_C, S3), ("sim", "r", random_map(rng), S3)]
     if thorough:
-        sim_jobs += [("d", MAP_D), ("a", MAP_A)] + [("r%d" % i, random_map(rng)) for i in range(3)]
-    for tag, m in sim_jobs:
-        for h in mc("sim_" + tag, m, S3, 12, True, "full", simulate="num=%d" % (400 if thorough else 100), workers=4, timeout=900):
-            behs.append("reset\n" + "\n".join(op_line(o) for o in h) + "\n")
+        jobs += [("sim", "d", MAP_D, S3), ("sim", "a", MAP_A, S3)] + [("sim", "r%d" % i, random_map(rng), S3) for i in range(3)]
+
+    def do_job(j):
+        kind, tag, m, steer = j
+        if kind == "sim":
+            # one worker: the set of simulated histories is then a function of the seed
+            return mc("sim_" + tag, m, steer, 16, True, "full", simulate="num=%d" % (500 if thorough else 100), workers=1, timeout=1500)
+        return mc(kind + "_" + tag, m, steer, 3, False, kind, workers=4, timeout=3000)
+
+    # exhaustive runs use 4 TLC workers each (3 at a time), simulations one worker each (4 at a time)
+    import concurrent.futures as cf
+    with cf.ThreadPoolExecutor(max_workers=max(1, (vlib.NCPU - 4) // 4)) as ex_bfs, cf.ThreadPoolExecutor(max_workers=4) as ex_sim:
+        futs = [(ex_sim if j[0] == "sim" else ex_bfs).submit(do_job, j) for j in jobs]
+        results = [f.result() for f in futs]          # in job order: the behaviour list is deterministic
+    for (kind, tag, m, steer), hs in zip(jobs, results):
+        for h in hs:
+            for o in h:
+                if o["op"] == "sscanf":
+                    pool[o["fmt"]].append(o["str"])
+        if kind == "sim":
+            behs += ["reset\n" + "\n".join(op_line(o) for o in h) + "\n" for h in sorted(hs, key=json.dumps)]
+        else:
+            behs += group_bfs(hs)
 
     nmodel = len(behs)
+    pool = {f: sorted(set(v)) for f, v in pool.items()}      # TLC's output order depends on thread scheduling
     # (4) hostile strings
     behs += hostile_behaviours(rng, pool, 20000 if thorough else 2500)
 
@@ -279,7 +292,10 @@ def run(ctx, replay=None):
     open(bf, "w").write("".join(behs))
     tf = ctx.path("trace.ndjson")
     ctx.record(exe, bf, tf, env=renv)
-    rejs = ctx.validate("TraceBitmapStr", tf, cfg=tcfg)
+    rejs = ctx.validate("TraceBitmapStr", tf, cfg=tcfg, max_rej=3)
+    if len(rejs) > 12:        # each rejection is replayed in a fresh process; a dozen is plenty to report
+        ctx.notes.append("%d rejected behaviours, the first 12 were replayed" % len(rejs))
+        rejs = sorted(rejs, key=lambda r: r["beh"] if r.get("beh") is not None else -1)[:12]
     for d in sorted(getattr(ctx, "drift", ()))[:20]:
         vlib.log("SPEC-DRIFT:", d[:600])
         ctx.notes.append("SPEC-DRIFT " + d[:300])
